@@ -30,6 +30,7 @@ CONSTANTS
     OwSet,        \* overwrite flags explored
     Vary,         \* d1: at most this many of the keys name/sub/layers differ from their default form (3 = full product)
     NameOpts,     \* partition of the d1 universe between parallel runs: subset of 0..3
+    FindKinds,    \* which find helpers this run enumerates: subset of {"find", "findall", "findunique", "findkey"}
     MaxHist,      \* history mode: number of patches in a row
     Bug           \* "none", or the name of a deliberately wrong variant (negative configs)
 
@@ -217,35 +218,17 @@ ZPatch(d1)      == IF ~Has(d1, "zz")
                               [] IsObjList(z)  -> {L(p) : p \in ListPatches(z.elems)}
                               [] OTHER         -> {S(2), L(<<N(2)>>)}}
 Reverse(s)      == [i \in DOMAIN s |-> s[Len(s) + 1 - i]]
+\* all ways to mention at most m of the keys (each part is a set of zero- or one-entry patches), in key order
+RECURSIVE Combine(_, _)
+Combine(parts, m) ==
+    IF parts = <<>> THEN {<<>>}
+    ELSE Combine(Tail(parts), m) \cup
+         (IF m = 0 THEN {} ELSE {a \o r : a \in Head(parts) \ {<<>>}, r \in Combine(Tail(parts), m - 1)})
 Patches(d1) ==
-    LET fwd == {p \in {a \o b \o c \o z : a \in NamePatch(d1), b \in SubPatch(d1), c \in LayersPatch(d1), z \in ZPatch(d1)} :
-                  Len(p) >= 1 /\ Len(p) <= MaxMention}
+    LET fwd == Combine(<<NamePatch(d1), SubPatch(d1), LayersPatch(d1), ZPatch(d1)>>, MaxMention) \ {<<>>}
     IN  IF Big THEN fwd \cup {Reverse(p) : p \in fwd} ELSE fwd
 
 UpdateCase(d1, d2, ow) == [kind |-> "update", d1 |-> D(d1), d2 |-> D(d2), ow |-> ow, res |-> D(Upd(d1, d2, ow))]
-
-\* find universes
-FindItems == {<<>>, << <<"name", S(1)>> >>, << <<"name", S(2)>> >>, << <<"name", S(3)>> >>, << <<"name", N(1)>> >>,
-              << <<"x", N(1)>> >>, << <<"x", N(2)>>, <<"name", S(1)>> >>,
-              << <<"name", L(<<S(1), S(3)>>)>> >>,                       \* a list-valued keyword
-              << <<"name", N(0)>> >>, << <<"name", S(0)>> >>}            \* falsy values
-FindLists == {[i \in DOMAIN s |-> D(s[i])] : s \in SeqsUpTo(FindItems, IF Big THEN 4 ELSE 3)}
-FindVals  == {S(0), S(1), S(2), S(3), N(0), N(1), N(2)}
-FindValLists == {L(<<S(1), S(3)>>), L(<<S(2)>>), L(<<N(1), S(1)>>)}
-KeyTypes(lst, key) == {Lookup(lst[i].items, key).t : i \in {j \in DOMAIN lst : Has(lst[j].items, key)}}
-Homogeneous(lst, key) == Cardinality(KeyTypes(lst, key)) <= 1 /\ KeyTypes(lst, key) \subseteq {"str", "int"}
-\* the key is also given in upper case (short lists only, to keep the product small)
-KeyCases(l) == IF Len(l) <= 2 THEN {"l", "U"} ELSE {"l"}
-FindCases ==
-    \* find: equality, also with a list-valued search value
-    UNION {{[kind |-> "find", lst |-> L(l), key |-> "name", kc |-> kc, val |-> v, res |-> Find(l, "name", v)] :
-              v \in FindVals \cup FindValLists, kc \in KeyCases(l)} : l \in FindLists}
-    \* findall: a list of values means "one of"; whether a list-valued keyword can equal a list of values is
-    \* not specified, so that combination is not generated
-    \cup UNION {{[kind |-> "findall", lst |-> L(l), key |-> "name", kc |-> kc, val |-> v, res |-> FindAll(l, "name", v)] :
-              v \in FindVals \cup (IF "list" \in KeyTypes(l, "name") THEN {} ELSE FindValLists), kc \in KeyCases(l)} : l \in FindLists}
-    \cup UNION {{[kind |-> "findunique", lst |-> L(l), key |-> "name", kc |-> kc, res |-> FindUnique(l, "name")] :
-              kc \in KeyCases(l)} : l \in {x \in FindLists : Homogeneous(x, "name")}}
 
 \* every path into a value
 RECURSIVE Paths(_)
@@ -254,13 +237,47 @@ Paths(v) ==
     (IF v.t = "dict" THEN UNION {{<<[t |-> "key", k |-> v.items[i][1]]>> \o p : p \in Paths(v.items[i][2])} : i \in DOMAIN v.items}
      ELSE IF v.t = "list" THEN UNION {{<<[t |-> "idx", i |-> i]>> \o p : p \in Paths(v.elems[i])} : i \in DOMAIN v.elems}
      ELSE {})
-FindKeyCases == UNION {{[kind |-> "findkey", d |-> D(d), path |-> p, res |-> FindKey(D(d), p)] : p \in Paths(D(d))} : d \in D1}
+FindKeyCases(u) == UNION {{[kind |-> "findkey", d |-> D(d), path |-> p, res |-> FindKey(D(d), p)] : p \in Paths(D(d))} : d \in D1}
+
+\* find universes
+FindItems == {<<>>, << <<"name", S(1)>> >>, << <<"name", S(2)>> >>, << <<"name", S(3)>> >>, << <<"name", N(1)>> >>,
+              << <<"x", N(1)>> >>, << <<"x", N(2)>>, <<"name", S(1)>> >>,
+              << <<"name", L(<<S(1), S(3)>>)>> >>,                       \* a list-valued keyword
+              << <<"name", N(0)>> >>, << <<"name", S(0)>> >>}            \* falsy values
+\* the longest lists are built from a core of five items: lacking the key, two holders of the same text, a
+\* list-valued keyword, a falsy value
+FindCore  == {<<>>, << <<"name", S(1)>> >>, << <<"x", N(2)>>, <<"name", S(1)>> >>, << <<"name", L(<<S(1), S(3)>>)>> >>,
+              << <<"name", N(0)>> >>}
+FindLists == {[i \in DOMAIN s |-> D(s[i])] :
+                 s \in IF Big THEN SeqsUpTo(FindItems, 3) \cup SeqsOf(FindCore, 4) ELSE SeqsUpTo(FindItems, 2) \cup SeqsOf(FindCore, 3)}
+FindVals  == {S(0), S(1), S(2), S(3), N(0), N(1), N(2)}
+FindValLists == {L(<<S(1), S(3)>>), L(<<S(2)>>), L(<<N(1), S(1)>>)}
+KeyTypes(lst, key) == {Lookup(lst[i].items, key).t : i \in {j \in DOMAIN lst : Has(lst[j].items, key)}}
+Homogeneous(lst, key) == Cardinality(KeyTypes(lst, key)) <= 1 /\ KeyTypes(lst, key) \subseteq {"str", "int"}
+\* the key is also given in upper case (short lists only, to keep the product small)
+KeyCases(l) == IF Len(l) <= 2 THEN {"l", "U"} ELSE {"l"}
+FindCases(kind) ==
+    IF kind = "find" THEN
+    \* find: equality, also with a list-valued search value
+    UNION {{[kind |-> "find", lst |-> L(l), key |-> "name", kc |-> kc, val |-> v, res |-> Find(l, "name", v)] :
+              v \in FindVals \cup FindValLists, kc \in KeyCases(l)} : l \in FindLists}
+    \* findall: a list of values means "one of"; whether a list-valued keyword can equal a list of values is
+    \* not specified, so that combination is not generated
+    ELSE IF kind = "findall" THEN
+    UNION {{[kind |-> "findall", lst |-> L(l), key |-> "name", kc |-> kc, val |-> v, res |-> FindAll(l, "name", v)] :
+              v \in FindVals \cup (IF "list" \in KeyTypes(l, "name") THEN {} ELSE FindValLists), kc \in KeyCases(l)} : l \in FindLists}
+    ELSE IF kind = "findunique" THEN
+    UNION {{[kind |-> "findunique", lst |-> L(l), key |-> "name", kc |-> kc, res |-> FindUnique(l, "name")] :
+              kc \in KeyCases(l)} : l \in {x \in FindLists : Homogeneous(x, "name")}}
+    ELSE FindKeyCases(0)
 
 -----------------------------------------------------------------------------
 (* the machines                                                            *)
-UInit == /\ \E d1 \in D1 : \E d2 \in Patches(d1) : \E ow \in OwSet : case = UpdateCase(d1, d2, ow)
-         /\ hist = <<>>
-FInit == case \in FindCases \cup FindKeyCases /\ hist = <<>>
+\* (the case sets take a dummy argument: TLC evaluates zero-argument constant definitions eagerly in every
+\* run, whether the run uses them or not)
+UpdateCases(u) == UNION {UNION {{UpdateCase(d1, d2, ow) : ow \in OwSet} : d2 \in Patches(d1)} : d1 \in D1}
+UInit == case \in UpdateCases(0) /\ hist = <<>>
+FInit == case \in UNION {FindCases(k) : k \in FindKinds} /\ hist = <<>>
 Stay  == UNCHANGED vars
 
 \* history mode: the next patch is applied to the result of the previous one
